@@ -60,6 +60,51 @@ def scenario(repo, at_chunk=2):
     return sim, viols, info
 
 
+def scenario_snapshot(repo, at_chunk=2):
+    """The same loss inside the burst of SNAPSHOT chunks sent to a read-only node that is behind the compacted prefix."""
+    sim = Sim(repo, ["a", "b"], observers=["o"], conf={"logCompactionBatchSize": 24}, seed=6)
+    for x, y in (("a", "b"),):
+        sim.connect(x, y)
+    L = sim.elect(among=["a", "b"])
+    assert L is not None
+    F = [v for v in sim.voters if v != L][0]
+    for k in range(12):
+        sim.submit(L, "s%d" % k)
+    sim.run(8, among=[L, F])
+    sim.compact(L)
+    sim.run(3, among=[L, F])
+    state = {"chunks": 0, "cut": False}
+    orig = sim._send
+
+    def send(a, b, msg):
+        if a == L and b == "o" and msg.get("type") == "append_entries" and msg.get("serialized") is not None and not state["cut"]:
+            state["chunks"] += 1
+            if state["chunks"] == at_chunk and not msg["serialized"][2]:
+                state["cut"] = True
+                sim.cut(L, "o")
+                sim.notice(L, "o")
+                return False
+        return orig(a, b, msg)
+    sim._send = send
+    sim.connect("o", L)                 # the read-only node joins far behind: it needs the snapshot
+    sim.tick(L, 0.125)                  # heartbeat with the leader's log end; the node answers with its own end
+    while sim.deliver(L, "o"):
+        pass
+    while sim.deliver("o", L):
+        pass
+    for _ in range(4):
+        sim.tick(L, 0.125)
+    errs = list(sim.errors)
+    sim._send = orig
+    sim.run(8, among=[L, F])
+    viols = []
+    for (n, typ, txt, tb) in errs:
+        viols.append({"signature": SIG,
+                      "what": "leader %s lost its read-only node at snapshot chunk %d (not the last one): %s(%s) escaped the tick"
+                              % (n, at_chunk, typ, txt)})
+    return sim, viols, {"leader": L, "snapshot_chunks_sent": state["chunks"], "cut": state["cut"], "errors": [e[:3] for e in errs]}
+
+
 def run(ctx):
     t0 = time.time()
     viols, infos = [], []
@@ -69,12 +114,27 @@ def run(ctx):
         viols += tag(v, "d65_observer_drops_mid_chunks", {"at_chunk": j})
         if v:
             break
+    snap_cut = False
+    if not viols:
+        for j in (1, 2, 3):
+            sim, v, info = scenario_snapshot(ctx.repo, j)
+            infos.append(info)
+            snap_cut = snap_cut or info["cut"]
+            viols += tag(v, "d65_observer_drops_mid_chunks", {"snapshot_chunk": j})
+            if v:
+                break
     r = result("witness.d65_observer_drops_mid_chunks", viols[:2], infos[-1], t0)
-    if not any(i["cut"] for i in infos):
+    if not any(i["cut"] for i in infos[:3]):
         r["inconclusive"] = "the leader sent no chunk burst to the read-only node"
+    elif not viols and not snap_cut:
+        r["inconclusive"] = "the leader sent no multi-chunk snapshot to the read-only node"
     return r
 
 
 def replay(ctx, violation):
+    rp = violation.get("replay", {})
+    if "snapshot_chunk" in rp:
+        sim, viols, info = scenario_snapshot(ctx.repo, rp["snapshot_chunk"])
+        return {"violated": bool(viols), "violations": viols, "info": info}
     sim, viols, info = scenario(ctx.repo, violation.get("replay", {}).get("at_chunk", 2))
     return {"violated": bool(viols), "violations": viols, "info": info}
